@@ -129,9 +129,13 @@ TimeFormat(t) ==          \* labella.scale.mytimeformat on an instant <<day, ms>
        ELSE IF mi = 0 /\ ss = 0 THEN Pad2(h12) \o " " \o (IF hh < 12 THEN "AM" ELSE "PM")
        ELSE IF ss = 0 THEN Pad2(hh) \o ":" \o Pad2(mi)
        ELSE ":" \o Pad2(ss)
+\* "each tick carries the formatted value of its position": linear - the text reads back as the tick value (C13's reading);
+\* time - the text is what the scale's own formatter gives for that tick (WHICH format the time scale uses is stated by no
+\* listed property: the model of it, TimeFormat above, is compared as specification drift only)
 C07_TickText == \A B \in Backends : Len(B.ticks) = Len(B.tickvals) => \A k \in 1..Len(B.ticks) :
     IF B.scale = "linear" THEN Abs(B.ticks[k].textv3 - B.tickvals[k].v3) <= B.tickvals[k].tol3
-    ELSE B.ticks[k].text = TimeFormat(B.tickvals[k].t)
+    ELSE B.ticks[k].text = B.tickvals[k].fmt
+Drift_TimeFormatModel == \A B \in Backends : B.scale # "linear" => \A k \in 1..Len(B.tickvals) : B.tickvals[k].fmt = TimeFormat(B.tickvals[k].t)
 
 \* ---------------------------------------------------------------- C08 (label spacing >= 3, layer gap >= 1)
 C08Applies(B) == B.ns >= 3 /\ B.gap5 >= U5 /\ OnePerDatum(B)
